@@ -222,7 +222,7 @@ impl Property for C03 {
     type Scenario = Scenario;
 
     fn rule() -> String {
-        "seeded traffic patterns on 2-4 hosts: every ordered pair exchanges numbered UDP datagrams every 1-5 ticks for the whole run (payload = sender, seq, sender's sim_elapsed), in half the runs also long-lived framed TCP streams in both directions plus periodic connects; tick 1-20 ms, fixed latency (60%) or ranges, fail_rate/repair_rate in {0} u (0,1], random host order, IPv4/IPv6. Faults: partition / partition_oneway / repair / repair_oneway; per seeded traffic pattern ALL 258 action sequences of length 1..3 over both directions of one pair (A,B) are placed (via variants) into three seeded slots - each slot either a Sim-handle call between two steps or a call from inside a host program (A, B or a third host) at a virtual instant, hosts named by string, IP string, IpAddr or regex (also regexes matching a further host), either address order of A and B; longer sequences (4-8 actions over arbitrary pairs and host sets) seeded. Oracle: reference timeline of the explicit state of every direction keyed by global event order; (1) a message sent while its direction is explicitly partitioned is never received (every fail/repair rate; TCP: SYN never accepted / connect never succeeds, data frames never read); (2) fixed latency: a message certainly in flight when a covering partition is imposed (latency not elapsed under both the sender-clock and the link-clock reading) is never received, in the one-tick zone where the readings differ either outcome is accepted; (3) fail_rate 0: a message sent on an explicitly healthy direction and certainly arrived before any later covering partition is received within max_latency + 2 ticks (other links, reverse direction of a one-way partition, TCP streams whose earlier segments all flowed); (4) same after an explicit repair. A call from another host in the same step whose virtual instant and event order disagree with the send makes that message unjudged. Non-trivial: >=1 message sent into an explicit partition and >=1 partition imposed with a message in flight; distinct = digest of (action kinds, issuer kinds, per-message fate and outcome)".into()
+        "seeded traffic patterns on 2-4 hosts: every ordered pair exchanges numbered UDP datagrams every 1-5 ticks for the whole run (payload = sender, seq, sender's sim_elapsed), in half the runs also long-lived framed TCP streams in both directions plus periodic connects; tick 1-20 ms, fixed latency (60%) or ranges, fail_rate/repair_rate in {0} u (0,1], random host order, IPv4/IPv6. Faults: partition / partition_oneway / repair / repair_oneway; per seeded traffic pattern ALL 258 action sequences of length 1..3 over both directions of one pair (A,B) are placed (via variants) into three seeded slots - each slot either a Sim-handle call between two steps or a call from inside a host program (A, B or a third host) at a virtual instant, hosts named by string, IP string, IpAddr or regex (also regexes matching a further host), either address order of A and B; longer sequences (4-8 actions over arbitrary pairs and host sets) seeded. Oracle: reference timeline of the explicit state of every direction keyed by global event order; (1) a message sent while its direction is explicitly partitioned is never received (every fail/repair rate; TCP: SYN never accepted / connect never succeeds, data frames never read); (2) fixed latency: a message certainly in flight when a covering partition is imposed (latency not elapsed under both the sender-clock and the link-clock reading) is never received, in the one-tick zone where the readings differ either outcome is accepted; (3) fail_rate 0: a message sent on an explicitly healthy direction and certainly arrived before any later covering partition is received within max_latency + 2 ticks (other links, reverse direction of a one-way partition, TCP streams whose earlier segments all flowed); (4) same after an explicit repair. A call from another host in the same step whose virtual instant and event order disagree with the send makes that message unjudged. Non-trivial: >=1 message sent into an explicit partition and >=1 partition imposed with a message in flight; distinct = digest of (action kinds, issuer kinds, per-message fate and outcome) Round 11: every fifth traffic pattern registers its hosts by IP literal in descending or shuffled order (selectors by IP only there).".into()
     }
     fn components_real() -> Vec<&'static str> {
         vec!["turmoil: Sim::partition/partition_oneway/repair/repair_oneway and the free functions of the same names, ToIpAddrs resolution (name, IP, regex), Topology/Link state machine incl. the random partition/repair process, net::UdpSocket, net::TcpListener/TcpStream"]
